@@ -12,7 +12,7 @@ def tasks(tier):
 TRUSTED_BASE = TRUSTED_CORE
 ASSUMPTIONS = SCHED_ASSUMPTIONS
 NOT_COVERED = ["'aborts run()': the SimulationError leaves sim_process; that World.run passes it on after shutting down is C14's World.run contract"]
-LEVEL_TEXT = 'Exact raise conditions (iff) at the reply-validation sites of step() / get_outputs() (non-int or not-later next step, output time before the step time, time-based simulator without next step), the error message mentions the simulator id, no effect after an invalid reply (exceptional postconditions), accepted replies are valid (postconditions).'
+LEVEL_TEXT = 'Exact raise conditions (iff) at the reply-validation sites of step() / get_outputs() (non-int or not-later next step, output time before the step time, time-based simulator without next step), the error message mentions the simulator id, no effect after an invalid reply (exceptional postconditions), accepted replies are valid (postconditions). SimRunner.step / get_data / setup_done hand the simulator\'s reply on unchanged (no coercion); scheduler.run passes the first failure on at once.'
 DESIGN_REF = "DESIGN.md section 8 (C13)"
 LEVEL_NOTE = 'Proved for any number of simulators, any topology, any reply values and every interleaving, under the listed assumptions (evidence: assumptions, coverage.trusted_base). Trusted: pyvc encoder, the rely/guarantee meta-theorem, assumed contracts of asyncio/heapq, the time/delay algebra axioms (C08 provenance), static connection-table facts, z3/cvc5. Fixed through this check: F8 (4154261).'
 TECHNIQUE = 'contract-based deductive verification (AST->z3 VCs on the real functions, global invariant, rely/guarantee at awaits)'
